@@ -155,6 +155,10 @@ def check(run):
             sf = handlers.SlotFlow(fx, cls + '::' + s, family, exceptions={(k[0], k[2]) for k in DISCARD_EXCEPTIONS if k[1] == s and k[0].startswith(cls)})
             flowsets[(cls, s)] = sf
             for f, kind, node, ok, needs in sf.results():
+                if kind == 'test-when-empty':
+                    run.violation('R6-STALE', s, '%s: test of %s' % (f.norm, s), f.loc(node),
+                                  '%s is tested at a point where it is known to be empty on every path (it was moved out, cleared, or aborted by a call made earlier in this function): the branch can never be taken, so the decision it guards - e.g. "the handshake is still in progress" - is silently lost' % s)
+                    continue
                 construct = '%s: %s %s' % (f.norm, {'set': 'store into', 'clear': 'clear', 'call-pre': 'call needing empty'}[kind], s)
                 key = (f.norm, s, kind)
                 if ok:
